@@ -45,6 +45,8 @@ pub enum Op {
     /// variant case (0 = own payload, 1 = none, 2 = number), result ok?
     TakeAgg(u8, bool),
     TakeBorrowed(u16),
+    /// borrows handed to functions of interfaces that `use` the resource at one and two removes
+    PeekFar(u16, Option<u16>),
     /// variant case, result ok?, option some?, list length
     GiveAgg(u8, bool, bool, u8),
     Drop(u16),
@@ -63,6 +65,7 @@ pub fn op() -> impl Strategy<Value = Op> {
         2 => (prop::collection::vec(any::<u16>(), 0..4), prop::option::of(any::<u16>())).prop_map(|(a, o)| Op::Many(a, o)),
         2 => (0u8..3, any::<bool>()).prop_map(|(v, r)| Op::TakeAgg(v, r)),
         1 => any::<u16>().prop_map(Op::TakeBorrowed),
+        1 => (any::<u16>(), prop::option::of(any::<u16>())).prop_map(|(a, b)| Op::PeekFar(a, b)),
         2 => (0u8..3, any::<bool>(), any::<bool>(), 0u8..4).prop_map(|(v, r, o, n)| Op::GiveAgg(v, r, o, n)),
         2 => any::<u16>().prop_map(Op::Drop),
     ]
@@ -80,7 +83,7 @@ pub fn wit(f: &Flavour) -> String {
     let n = NAMES[f.name];
     let ctor = if f.fallible { format!("constructor(x: u32) -> result<{n}, u32>;") } else { "constructor(x: u32);".to_string() };
     format!(
-        "package v:w;\ninterface api {{\n  resource {n} {{\n    {ctor}\n    get: func() -> u32;\n    add: func(other: borrow<{n}>) -> u32;\n    make: static func(x: u32) -> {n};\n    consume: static func(a: {n}) -> u32;\n    unwrap: static func(a: {n}) -> u32;\n    pass: static func(a: {n}) -> {n};\n    peek: static func(a: borrow<{n}>, b: list<borrow<{n}>>, c: option<borrow<{n}>>) -> u32;\n    many: static func(a: list<{n}>, o: option<{n}>, nx: u32) -> tuple<{n}, u32>;\n  }}\n  record rec {{ a: {n}, b: u32 }}\n  variant va {{ a({n}), b, c(u32) }}\n  record brec {{ a: borrow<{n}>, b: u32 }}\n  take-agg: func(r: rec, v: va, t: result<{n}, u32>, u: tuple<{n}, {n}>) -> u32;\n  take-borrowed: func(r: brec) -> u32;\n  give-agg: func(xs: list<u32>) -> tuple<rec, va, result<{n}, u32>, option<{n}>, list<{n}>>;\n}}\nworld w {{\n  export api;\n}}\n"
+        "package v:w;\ninterface api {{\n  resource {n} {{\n    {ctor}\n    get: func() -> u32;\n    add: func(other: borrow<{n}>) -> u32;\n    make: static func(x: u32) -> {n};\n    consume: static func(a: {n}) -> u32;\n    unwrap: static func(a: {n}) -> u32;\n    pass: static func(a: {n}) -> {n};\n    peek: static func(a: borrow<{n}>, b: list<borrow<{n}>>, c: option<borrow<{n}>>) -> u32;\n    many: static func(a: list<{n}>, o: option<{n}>, nx: u32) -> tuple<{n}, u32>;\n  }}\n  record rec {{ a: {n}, b: u32 }}\n  variant va {{ a({n}), b, c(u32) }}\n  record brec {{ a: borrow<{n}>, b: u32 }}\n  take-agg: func(r: rec, v: va, t: result<{n}, u32>, u: tuple<{n}, {n}>) -> u32;\n  take-borrowed: func(r: brec) -> u32;\n  give-agg: func(xs: list<u32>) -> tuple<rec, va, result<{n}, u32>, option<{n}>, list<{n}>>;\n}}\ninterface mid {{\n  use api.{{{n}}};\n  peek-mid: func(a: borrow<{n}>) -> u32;\n}}\ninterface far {{\n  use mid.{{{n}}};\n  type again = {n};\n  peek-far: func(a: borrow<{n}>, b: option<borrow<again>>) -> u32;\n}}\nworld w {{\n  export api;\n  export mid;\n  export far;\n}}\n"
     )
 }
 
@@ -131,6 +134,12 @@ impl xapi::Guest for MyR {{
         (rec, va, res, opt, xs[8..].iter().map(|x| mk(*x)).collect())
     }}
 }}
+impl exports::v::w::mid::Guest for MyR {{
+    fn peek_mid(a: xapi::{c}Borrow<'_>) -> u32 {{ bval(&a) + 2 }}
+}}
+impl exports::v::w::far::Guest for MyR {{
+    fn peek_far(a: xapi::{c}Borrow<'_>, b: Option<xapi::{c}Borrow<'_>>) -> u32 {{ bval(&a) + b.as_ref().map(bval).unwrap_or(0) + 1 }}
+}}
 export!(MyR);
 "#
     )
@@ -168,6 +177,8 @@ const MANY: usize = 8;
 const TAKE_AGG: usize = 9;
 const TAKE_BORROWED: usize = 10;
 const GIVE_AGG: usize = 11;
+const PEEK_MID: usize = 12;
+const PEEK_FAR: usize = 13;
 
 pub fn funcs(f: &Flavour) -> Vec<XFunc> {
     let n = NAMES[f.name];
@@ -185,6 +196,9 @@ pub fn funcs(f: &Flavour) -> Vec<XFunc> {
         x("take-agg".into(), vec![rec_ty(), va_ty(), res_ty(), Ty::Tuple(vec![Ty::Own, Ty::Own])], Some(Ty::U32), false),
         x("take-borrowed".into(), vec![brec_ty()], Some(Ty::U32), false),
         x("give-agg".into(), vec![Ty::List(Box::new(Ty::U32))], Some(Ty::Tuple(vec![rec_ty(), va_ty(), res_ty(), Ty::Option(Box::new(Ty::Own)), Ty::List(Box::new(Ty::Own))])), false),
+        // the same resource reached through one and through two `use`s (and a type alias)
+        x("mid#peek-mid".into(), vec![Ty::Borrow], Some(Ty::U32), false),
+        x("far#peek-far".into(), vec![Ty::Borrow, Ty::Option(Box::new(Ty::Borrow))], Some(Ty::U32), false),
     ]
 }
 
@@ -255,7 +269,8 @@ fn trampolines(fs: &[XFunc], name: &str) -> String {
     for (i, f) in fs.iter().enumerate() {
         let decl: Vec<String> = f.core_params().iter().enumerate().map(|(k, t)| format!("a{k}: {}", exec::rust_flat(*t))).collect();
         let ret = f.core_result().map(|t| format!(" -> {}", exec::rust_flat(t))).unwrap_or_default();
-        s.push_str(&format!("    #[link_name = \"v:w/api#{}\"]\n    fn __e{i}({}){ret};\n", f.name, decl.join(", ")));
+        let link = if f.name.contains('#') { format!("v:w/{}", f.name) } else { format!("v:w/api#{}", f.name) };
+        s.push_str(&format!("    #[link_name = \"{link}\"]\n    fn __e{i}({}){ret};\n", decl.join(", ")));
         if f.post() {
             s.push_str(&format!("    #[link_name = \"cabi_post_v:w/api#{}\"]\n    fn __p{i}(a0: i64);\n", f.name));
         }
@@ -761,6 +776,21 @@ impl Run<'_> {
                     exec::fail("exported-value-reached", format!("take-borrowed(x {}) returned {got:?}", e.x));
                 }
                 self.settle("take-borrowed", vec![], 0);
+            }
+            Op::PeekFar(a, b) => {
+                let ea = self.peek_at(*a);
+                let eb = b.map(|i| self.peek_at(i));
+                let got = self.call(PEEK_MID, vec![hv(self.rep(ea))]);
+                if got != Some(Val::U32(ea.x + 2)) {
+                    exec::fail("exported-value-reached", format!("peek-mid (interface one `use` away) over a borrow of x {} returned {got:?}", ea.x));
+                }
+                self.settle("peek-mid", vec![], 0);
+                let want = ea.x + eb.map(|e| e.x).unwrap_or(0) + 1;
+                let got = self.call(PEEK_FAR, vec![hv(self.rep(ea)), Val::Option(eb.map(|e| Box::new(hv(self.rep(e)))))]);
+                if got != Some(Val::U32(want)) {
+                    exec::fail("exported-value-reached", format!("peek-far (interface two `use`s away) over borrows of x {:?} returned {got:?}, expected {want}", (ea.x, eb.map(|e| e.x))));
+                }
+                self.settle("peek-far", vec![], 0);
             }
             Op::GiveAgg(v, ok, some, n) => {
                 let xs: Vec<u32> = (0..4 + *n as usize).map(|_| self.fresh_x()).collect();
